@@ -239,7 +239,8 @@ CloneObj(x, y) ==
 
 (* ---------------- wrapped associated returns (traits.rs:153-485, func.rs:1599-1615) ---------------- *)
 (* owned child on a reference receiver: new boxed Ra object holding its own clone of the context *)
-KidOwned(x, y) ==
+(* via: through a shared-reference receiver or a pinned one (`self: Pin<&Self>`) - the same rule *)
+KidOwned(x, y, via) ==
   /\ Idle /\ ~IsFree(x) /\ IsFree(y) /\ "Kid" \in TraitsOf(x) /\ nextInst <= MaxInst
   /\ pay' = [pay EXCEPT ![nextInst] = FreshPay(0, (pay[h[x].inst].val + 5) % Mod, "obj")]
   /\ h' = [h EXCEPT ![y] = [kind |-> "box", t |-> "obj", tr |-> "Ra", req |-> <<>>, inst |-> nextInst, ctx |-> h[x].ctx]]
@@ -367,7 +368,7 @@ Do(e) ==
   \/ e.op = "CastMove"    /\ CastMove(e.x, e.how, e.req)
   \/ e.op = "Upcast"      /\ Upcast(e.x)
   \/ e.op = "Clone"       /\ CloneObj(e.x, e.y)
-  \/ e.op = "KidOwned"    /\ KidOwned(e.x, e.y)
+  \/ e.op = "KidOwned"    /\ KidOwned(e.x, e.y, e.via)
   \/ e.op = "KidBorrowed" /\ KidBorrowed(e.x, e.which, e.sel, e.m, e.a)
   \/ e.op = "KidView"     /\ KidView(e.x, e.m, e.a)
   \/ e.op = "Consume"     /\ ConsumeBegin(e.x, e.m)
